@@ -12,6 +12,7 @@ RULE = ("complete: all 8^5 (Langton: value or ValueError) and 9^5 (SDSR, Evoloop
         "image per rotation class / conflicting classes) with and without add_rotations, looked up through 3x3 "
         "neighbourhoods, and the rule_table property. Non-trivial: every batch and every user table with >= 2 entries.")
 EXHAUSTIVE = True
+INFO_MODULES = ["Cpl.Info.C15Tables"]
 TRUSTED = ["tools/translate.py (AST walk of the dict literals, SDSR's extra assignments, add_rotations) and the Lean literal printer",
            "dict insertion/overwrite semantics modelled as an association list with the latest binding first"]
 ASSUMPTIONS = ["user tables assign one image per rotation class when rotations are requested (conflicting classes are exercised but only the last-writer-wins agreement with the model is compared)"]
